@@ -131,33 +131,72 @@ def rule_dedupe_predicate(ctx: Ctx, rule: str) -> None:
                    '¬force_negate ∧ |patterns| ≤ 1 ∧ ¬NODOTDIR ∧ ¬nounique ∧ ¬(pathlib ∧ scandotdir)')
     repo = ctx.repo
     ip = repo.func('glob', 'Glob._iter_patterns')
-    ifs = [n for n in walk_no_nested(ip.node) if isinstance(n, ast.If) and
-           any(isinstance(x, ast.Call) and norm_src(x.func) == 'seen.add' for s in n.body for x in ast.walk(s))]
-    ok = len(ifs) == 1 and equivalent_tests(ifs[0].test, 'not self.nounique or is_neg')
-    ctx.ob(rule, 'glob:Glob._iter_patterns/dedupe-guard', ok, repo.loc('glob', ifs[0] if ifs else ip.node), 'not self.nounique or is_neg',
-           norm_src(ifs[0].test) if ifs else 'none', witness="glob(['a','a'], flags=NOUNIQUE) returns `a` twice; exclusions are de-duplicated anyway")
-    if ifs:
-        inner = [n for n in ifs[0].body if isinstance(n, ast.If)]
-        ok2 = any(norm_src(n.test) == 'expanded in seen' and any(isinstance(s, ast.Continue) for s in n.body) for n in inner) and \
-            any(isinstance(s, ast.Expr) and norm_src(s.value) == 'seen.add(expanded)' for s in ifs[0].body)
-        ctx.ob(rule, 'glob:Glob._iter_patterns/dedupe-body', ok2, repo.loc('glob', ifs[0]), 'if expanded in seen: continue; seen.add(expanded)', str(ok2))
-    isneg = [s for s in walk_no_nested(ip.node) if isinstance(s, ast.Assign) and norm_src(s.targets[0]) == 'is_neg']
-    ok3 = len(isneg) == 1 and equivalent_tests(isneg[0].value, 'force_negate or _wcparse.is_negative(expanded, self.flags)')
-    ctx.ob(rule, 'glob:Glob._iter_patterns/is_neg', ok3, repo.loc('glob', ip.node), 'force_negate or is_negative(expanded, self.flags)',
-           norm_src(isneg[0].value) if isneg else 'none', witness="exclude=['!x'] must exclude a file literally named `!x`")
-    ys = [y for y in walk_no_nested(ip.node) if isinstance(y, ast.Yield)]
-    ok4 = len(ys) == 1 and norm_src(ys[0].value) == '(is_neg, expanded[1:] if is_neg and (not force_negate) else expanded)'
-    ctx.ob(rule, 'glob:Glob._iter_patterns/strip-negation-symbol', ok4, repo.loc('glob', ip.node),
-           'yield is_neg, expanded[1:] if is_neg and not force_negate else expanded', norm_src(ys[0].value) if ys else 'none',
+    from ..symeval import focus, _tag
+    pars = [p for p in ip.params() if p != 'self']
+    if len(pars) != 2:
+        raise AnalysisError('Glob._iter_patterns: (patterns, force_negate) expected')
+    # one expansion of one pattern; the limit arithmetic is switched off (limit = 0), it is C11's subject
+    ev = SymEval(repo, inline=False, loop_mode='once', max_paths=5000)
+    paths = ev.tabulate(ip, {pars[0]: Opaque('patterns'), pars[1]: Opaque('force_negate')}, Obj(('glob', 'Glob'), {'limit': 0}))
+    bad_g, bad_b, bad_n, bad_s = [], [], [], []
+    n_rows = 0
+    for p in paths:
+        focus(p)
+        d = p.decisions
+        ex = [e for e in p.of('call') if e[1] == '_wcparse:expand']
+        if not ex or 'force_negate' not in d:
+            continue
+        n_rows += 1
+        E = 'elem(_wcparse:expand(' + ', '.join(_tag(x) for x in ex[0][2]) + '))'
+        fn = d['force_negate']
+        negs = [v for k, v in d.items() if k == f'_wcparse:is_negative({E}, self.flags)']
+        if not fn and len(negs) != 1:
+            bad_n.append(f'force_negate=False: negation decided by {[k for k in d if "is_negative" in k]}')
+            continue
+        if fn and negs:
+            bad_n.append('force_negate=True still consults is_negative')  # harmless, but `or` short-circuits in the specification
+        isn = bool(fn) or negs[0]
+        nu = d.get('self.nounique')
+        mem = [v for k, v in d.items() if k.startswith(f'{E} in set#')]
+        adds = [e for e in p.of('call') if e[1].startswith('set#') and e[1].endswith('.add')]
+        ys = p.of('yield')
+        if nu is None and not isn:
+            bad_g.append('an inclusion pattern is de-duplicated without consulting self.nounique')
+            continue
+        applies = (nu is False) or isn
+        if applies:
+            if len(mem) != 1:
+                bad_g.append(f'nounique={nu} negative={isn}: the seen set is not consulted')
+                continue
+            if mem[0] and (ys or adds):
+                bad_b.append(f'a pattern already seen is yielded / added again')
+            if not mem[0] and (len(ys) != 1 or len(adds) != 1 or [_tag(x) for x in adds[0][2]] != [E]):
+                bad_b.append(f'a new pattern: {len(ys)} yield(s), added {[[_tag(x) for x in a[2]] for a in adds]}')
+        else:
+            if mem or adds:
+                bad_g.append(f'nounique={nu} negative={isn}: de-duplicated although duplicates are to be kept')
+            if len(ys) != 1:
+                bad_b.append(f'nounique inclusion: {len(ys)} yields')
+        for y in ys:
+            v = y[1]
+            want_txt = f'{E}[1:]' if (isn and not fn) else E
+            if not (isinstance(v, tuple) and len(v) == 2 and bool(v[0]) == isn and not isinstance(v[0], (Opaque, Tok)) or
+                    (isinstance(v, tuple) and len(v) == 2 and isinstance(v[0], Opaque) and fn and v[0].tag == 'force_negate')) or _tag(v[1]) != want_txt:
+                bad_s.append(f'force_negate={fn} negative={isn}: yields ({_tag(v[0]) if isinstance(v, tuple) else v}, {_tag(v[1])[-24:] if isinstance(v, tuple) and len(v) > 1 else ""})')
+    if n_rows < 8:
+        raise AnalysisError(f'Glob._iter_patterns: only {n_rows} expansion rows in the table')
+    site = repo.loc('glob', ip.node)
+    ctx.ob(rule, 'glob:Glob._iter_patterns/dedupe-guard', not bad_g, site, 'the seen set is consulted iff not self.nounique or is_neg',
+           f'{n_rows} rows agree' if not bad_g else sorted(set(bad_g))[0], witness="glob(['a','a'], flags=NOUNIQUE) returns `a` twice; exclusions are de-duplicated anyway")
+    ctx.ob(rule, 'glob:Glob._iter_patterns/dedupe-body', not bad_b, site, 'seen: skipped; new: added to the seen set and yielded once', 'as expected' if not bad_b else sorted(set(bad_b))[0])
+    ctx.ob(rule, 'glob:Glob._iter_patterns/is_neg', not [b for b in bad_n if 'still consults' not in b], site, 'force_negate or is_negative(expanded, self.flags)',
+           'as expected' if not bad_n else sorted(set(bad_n))[0], witness="exclude=['!x'] must exclude a file literally named `!x`")
+    ctx.ob(rule, 'glob:Glob._iter_patterns/strip-negation-symbol', not bad_s, site,
+           'yield is_neg, expanded[1:] if is_neg and not force_negate else expanded', 'as expected' if not bad_s else sorted(set(bad_s))[0],
            witness="glob(['*', '!a'], flags=NEGATE) must exclude `a`, not `!a`")
     pp = repo.func('glob', 'Glob._parse_patterns')
-    auto = [n for n in walk_no_nested(pp.node) if isinstance(n, ast.If) and any(norm_src(s) == 'self.nounique = True' for s in n.body)]
-    want = ('not force_negate and len(self.pattern) <= 1 and not self.flags & NODOTDIR and not self.nounique and '
-            'not (self.pathlib and self.scandotdir)')
-    ok5 = len(auto) == 1 and equivalent_tests(auto[0].test, want)
-    ctx.ob(rule, 'glob:Glob._parse_patterns/auto-nounique', ok5, repo.loc('glob', auto[0] if auto else pp.node), want,
-           norm_src(auto[0].test) if auto else 'none',
-           witness="glob(['a', '[a]']) must return `a` once: the shortcut may only apply to a single inclusion pattern")
+    from .clists import parse_patterns_tail
+    parse_patterns_tail(ctx, rule, which={'auto-nounique'})
     from .common import pinned_writers
     writers = pinned_writers(repo, 'glob', 'Glob', 'nounique')
     ctx.ob(rule, 'glob:Glob/nounique-writers', writers == {'__init__', '_parse_patterns'}, repo.loc('glob', pp.node), "{'__init__', '_parse_patterns'}", str(sorted(writers)))
